@@ -146,6 +146,26 @@ func C13(c *Ctx) {
 		}
 		jobs = append(jobs, job{b, pickFlags(), rng.Intn(2) == 0, rng.Intn(2) == 0, "random"})
 	}
+	// every Unicode class name the front-end accepts (enumerated through the hook), under the flags
+	// that treat classes specially
+	if hook, err := c.W.Hooked(); err == nil {
+		res := c.W.RunPigeon(hook, nil, 30*time.Second, []string{"PIGEON_VERIF_MODE=uclasses"})
+		names := strings.Fields(string(res.Stdout))
+		for lo := 0; lo < len(names); lo += 40 {
+			hi := lo + 40
+			if hi > len(names) {
+				hi = len(names)
+			}
+			var sb strings.Builder
+			sb.WriteString("{\npackage p\n}\n")
+			for i, n := range names[lo:hi] {
+				fmt.Fprintf(&sb, "U%d <- [\\p{%s}] [^\\p{%s}a]i\n", lo+i, n, n)
+			}
+			for _, f := range [][]string{{}, {"-optimize-basic-latin"}, {"-optimize-grammar", "-optimize-basic-latin"}, {"-optimize-parser", "-optimize-basic-latin", "-support-left-recursion"}} {
+				jobs = append(jobs, job{[]byte(sb.String()), f, true, false, "unicode-classes"})
+			}
+		}
+	}
 	scratch := filepath.Join(c.W.Dir, "c13")
 	os.MkdirAll(scratch, 0o755)
 	var seq atomic.Int64
